@@ -60,7 +60,7 @@ func H_gzip() {
 		if rt.HasParam("save") && i == rt.Param("save") {
 			rc.WantSave()
 		}
-		if c := rc.PopCheckpoint(); c != nil && i < len(msgs)-1 {
+		if c := rc.PopCheckpoint(); c != nil && (i < len(msgs)-1 || rt.HasParam("last")) {
 			// a checkpoint emitted by the real resumable gzip source: through gob into a brand-new reader
 			// (not after the last message: savior.DiscardByRead's EOF handling there is a known dependency issue, DESIGN 8 #17)
 			c2 := &wire.MessageReaderCheckpoint{}
